@@ -86,6 +86,6 @@ func runWMPT(args []string) (map[string]any, error) {
 		return nil, err
 	}
 	return map[string]any{"traces": st.Traces, "events": st.Events, "tlc_histories": nTLC, "go_histories": *c.n, "panics": st.Panics,
-		"commits": st.Commits, "gcs": st.GCs, "owner_observations": st.Owners, "rollbacks": st.Rollbacks,
+		"commits": st.Commits, "gcs": st.GCs, "owner_observations": st.Owners, "rollbacks": st.Rollbacks, "copyroot_forks": st.Forks,
 		"distinct_signatures": len(st.Distinct), "generator_modes": st.Modes, "distinct_nodes": in.Len(), "samples": w.Samples}, nil
 }
